@@ -163,6 +163,76 @@ CLAIMED['C20'] = dict(
          'positions that validate nothing, 29 silently dropped options, 8 ineffective opt-outs. '
          'Projection operators and $bucket/$facet sub-positions are not probed.')
 
+CLAIMED['C05'] = dict(
+    technique='Lean 4 invariant over all histories of the collection state machine (store keys '
+              'pairwise distinct, every document under its own _id), transitivity of Python == for '
+              'all values, immutability across updates; tied to the code by history correspondence '
+              'and a direct oracle incl. lookup-by-_id probes',
+    text='Lean 4 theorems about MongoModel.step: IdInv (no two store keys equal; every document '
+         'stored under a key equal to its own _id) holds for the empty collection and is preserved '
+         'by EVERY operation, successful or rejected, hence in every reachable state of every '
+         'history (on collections whose keys are well behaved: scalar, empty or single-field '
+         'embedded _ids — the model\'s value universe also contains association lists with '
+         'duplicate keys, which no Python dict can be, and the unrestricted statements are refuted '
+         'on such witnesses); consequently no two stored documents have equal _ids; Python == is '
+         'transitive on all values, symmetric on scalars and on well-formed values; an insert whose '
+         '_id is already a key returns DuplicateKeyError and leaves exactly what the expiry pass '
+         'leaves; a successful insert appends the document under an _id that was not a key '
+         '(generated when absent); after any update / replacement / upsert every document is an '
+         'old one under the same key with an equal _id, or the single upserted one. Tie: histories '
+         'of 3-40 operations (>= 25% rejected writes, tiny id pool incl. embedded ids) are run on '
+         '/repo and on the compiled model (outcomes, _id sequences); uniqueness, freshness, '
+         'DuplicateKeyError on duplicates, immutability and find({_id: x}) = the stored document '
+         'are checked directly on python after every step.',
+    note='Multi-field embedded _ids are covered by the correspondence and the oracle only (scope '
+         'limit embedded-id-multifield). Known finding id-boolnum: a replacement carrying _id true '
+         'rewrites a stored _id 1 (Python == identifies them).')
+
+CLAIMED['C10'] = dict(
+    technique='Lean 4 theorems: find, count_documents, delete_one/many and update_one/many are '
+              'all characterised by one selection function over the expired collection; tied to '
+              'the code by history correspondence and a twin-collection relational oracle over all '
+              'entry points',
+    text='Lean 4 theorems about the model: for every collection, clock and filter, find yields '
+         'exactly Spec.selectDocs (the shared scan) in natural order; count_documents is its '
+         'length (with the skip/limit arithmetic) and raises exactly when find does; delete_many '
+         'removes exactly the selected documents, reports their number, and that number is the '
+         'drop in size; delete_one removes the first one; update_many matches exactly the selected '
+         'documents (modified <= matched, no upsert), update_one has a target iff something is '
+         'selected (the last four on collections satisfying C05\'s invariant). Tie: at the end of '
+         'every generated history one generated filter goes through find, count_documents, '
+         'update_many, update_one, delete_many, delete_one, aggregate $match, distinct and '
+         'find_one, each on a twin copy, and all must agree; along the history deleted_count = '
+         'size drop, inserted_ids = new ids, modified_count = number of changed documents; every '
+         'step is also compared with the compiled model.',
+    note='$match and distinct are covered by the relational oracle, not by a theorem (the pipeline '
+         'model belongs to C03). Known finding match-empty-novalidate; order-only edits of '
+         'upsert-built OrderedDict documents count as modifications (modified-order-only).')
+
+CLAIMED['C12'] = dict(
+    technique='Lean 4 theorems: projection is a per-document map whose output is a sub-document '
+              'of its input, Impl = Spec on D for inclusion / exclusion / $slice / $elemMatch, '
+              'find path = aggregate path; tied to the code by correspondence through find, '
+              'find_one, find_one_and_* and $project',
+    text='Lean 4 theorems about the model of _copy_only_fields / _project_by_spec / projection '
+         'operators and the $project stage: find(f, p) is find(f) with each document replaced by '
+         'its own projection (same documents, same order); for EVERY specification and document '
+         'the output is a sub-document of the input (never alters or invents a value); on the '
+         'domain D an inclusion returns _id plus exactly the requested paths (descending through '
+         'sub-documents and each sub-document element of arrays) and an exclusion removes exactly '
+         'the named paths; $slice keeps the stated contiguous part and $elemMatch exactly the '
+         'first accepted element; the list form equals the dict form; the separately coded '
+         'aggregate-path projection equals the find-path one on the common domain. The unrestricted '
+         'statements are refuted on witnesses (arrays mixing scalars and sub-documents, exclusion '
+         'under a scalar, $slice corner cases). Tie: documents with nested sub-documents, arrays '
+         'of sub-documents and mixed arrays x a projection grammar go through find, find_one, '
+         'find_one_and_update/replace/delete (both return modes) and aggregate $project and are '
+         'compared with Impl and Spec; directly on python every result must be a sub-document of '
+         'the stored one and counts/order equal the unprojected query.',
+    note='Known findings (7): mixedarray, exclscalar, aggdroparr, slicelimit, sliceskip, '
+         'slicealone, argmutated. Computed $project fields, positional projection and mixed '
+         'include/exclude are out of scope.')
+
 PENDING = {
     'C02': 'model (MongoModel/Update.lean) and correspondence exist; theorems not yet proved',
     'C03': 'in progress: pipeline model depends on the expression model (C04)',
